@@ -526,6 +526,35 @@ fn def_method_impl(
                         quote!()
                     };
 
+                    let unmock_input_eval_arm = attr.get_unmock_fn(index).map(
+                        |UnmockFn {
+                             path: unmock_path,
+                             params: unmock_params,
+                         }| {
+                            let unmock_expr = match unmock_params {
+                                None => quote! {
+                                    #unmock_path(__self, #fn_params) #opt_dot_await
+                                },
+                                Some(UnmockFnParams { params }) => {
+                                    // `self` has been moved into the surrogate at this point
+                                    let params = params
+                                        .iter()
+                                        .cloned()
+                                        .map(util::replace_self_expr_with_surrogate);
+                                    quote! {
+                                        #unmock_path(#(#params),*) #opt_dot_await
+                                    }
+                                }
+                            };
+
+                            quote! {
+                                #prefix::private::Continuation::Unmock => {
+                                    #unmock_expr
+                                }
+                            }
+                        },
+                    );
+
                     quote! {
                         let (__cont, #eval_pattern_all) = #prefix::polonius::_polonius!(|#self_ref| -> #polonius_return_type {
                             match #prefix::private::eval::<#mock_fn_path #eval_generic_args>(#self_ref, #inputs_eval_params) {
@@ -537,6 +566,7 @@ fn def_method_impl(
                             #prefix::private::Continuation::Answer(__answer_fn) => {
                                 __answer_fn(__self, #fn_params)
                             }
+                            #unmock_input_eval_arm
                             #default_impl_input_eval_arm
                             cont => cont.report(__self)
                         }
